@@ -199,7 +199,9 @@ def main():
         print(ln)
     print(f"{pid} {a.tier}: theorems {len(discharged)}/{len(names)} closed; "
           f"{cov.get('evaluations', 0)} cases, {cov.get('disagreements', 0)} disagreements, "
-          f"{cov.get('checker_failures', 0)} checker failures; {wall:.1f}s; exit {rc}")
+          f"{cov.get('checker_failures', 0)} checker failures "
+          f"({sum(1 for r in res['failures'] if propdefs.match_known(open_known, r) is not None)} matched by listed known findings); "
+          f"{wall:.1f}s; exit {rc}")
     return rc
 
 
